@@ -39,7 +39,7 @@ func (c05) ID() string { return "C05" }
 
 func (c05) Plan(tier string) fw.Plan {
 	p := fw.Plan{
-		Batches: 16, Cases: 1500, TimeoutSec: 900, Level: "exploration",
+		Batches: 16, Cases: 6000, TimeoutSec: 900, Level: "exploration",
 		Rule:        "one case = one history of 30 operations (Store, ComputeLink, Load, LoadRaw, LoadPlusRaw, Fill) on one LinkSystem over one storage (memstore through SetReadStorage/SetWriteStorage, or cidlink.Memory openers), link prototypes drawn from CID v0/v1 × codecs {dag-cbor, dag-json, cbor, json, raw, 0x70→dag-cbor in a private registry} × every hasher of go-multihash's core registry × digest length {−1, full, truncated, 1} × identity; each value materialised at each step through a different implementation (basicnode build program, harness-owned node, bindnode-wrapped Go struct with renamed/tuple representation) and insertion order. Oracle: reference CID over reference bytes (independent canonical DAG-CBOR encoder; raw bytes; the codec's own direct Encode for the others), write-once map model of the storage. dag-json/json values carry no floats here (C04 decides float round trips). Non-trivial: history stored ≥2 distinct blocks and loaded at least one; distinct by hash of the history's (value, prototype, op) sequence.",
 		Assumptions: []string{"stdlib crypto digests and lib/ref/link CID construction are the link oracle", "for cbor/json/dag-json the expected block bytes come from the codec's own direct Encode call (outside the link system)"},
 		MinEvents:   []string{"stores", "computes", "loads", "loadraws", "loadplusraws", "fills", "typed_nodes_stored", "storage_content_checks"},
